@@ -11,10 +11,14 @@ namespace lib {
 using ref::Config;
 using fw::Case;
 
+// the null back end's documented sample private argument (ec_args.priv_args1.null_args.arg1): a harness may set it for
+// the creates it makes; no back end gives it a meaning, so nothing observable may depend on it
+inline uint64_t &null_arg1() { static uint64_t v = 0; return v; }
 inline int create(const Config &c) {
     struct ec_args a;
     memset(&a, 0, sizeof a);
     a.k = c.k; a.m = c.m; a.w = c.w; a.hd = c.hd; a.ct = c.ct;
+    if (c.backend == ref::B_NULL) a.priv_args1.null_args.arg1 = null_arg1();
     return liberasurecode_instance_create((unsigned)c.backend, &a);
 }
 
